@@ -237,6 +237,10 @@ def codec_stream(ctx):
         for i in range(30 if ctx.thorough else 10):
             ck = lk.gen_crypto_key("ec", cb, i)
             items.append(("ec", paramiko.ECDSAKey(vals=(ck, ck.public_key())), openssh_public_blob(ck.public_key())))
+    for cb in (256, 384, 521):      # coordinates with 1, 2, 3 leading zero bytes
+        for (coord, k), (scalar, ck) in sorted(lk.boundary_ec_keys(cb, 20000 if ctx.thorough else 3000).items()):
+            ctx.dist("encode:ec:%d:%s-leading-zero-bytes>=%d" % (cb, coord, k))
+            items.append(("ec", paramiko.ECDSAKey(vals=(ck, ck.public_key())), openssh_public_blob(ck.public_key())))
     for i in range(30 if ctx.thorough else 10):
         ck = lk.gen_crypto_key("ed", None, i)
         ref = openssh_public_blob(ck.public_key())
